@@ -1,18 +1,225 @@
 package main
 
-// Two-thread mode (C17).  Placeholder until the scheduler is built: harnesses that
-// spawn threads are reported as unsupported.
+// Two-thread mode (C17): harness threads are coroutines (one goroutine each, exactly one runs at a
+// time).  At every preemption point - a call, load, store or map access executed inside a watched
+// function - the schedule may switch to another runnable thread; each such choice is a path decision,
+// so the exploration enumerates all schedules with at most cfg.MaxSwitches context switches.
 
-import "golang.org/x/tools/go/ssa"
+import (
+	"fmt"
+	"go/token"
+	"runtime"
+	"strings"
 
-type threadState struct{}
+	"golang.org/x/tools/go/ssa"
+)
 
-func newThreadState() *threadState { return &threadState{} }
-
-func (t *threadState) maybeSwitch(r *Run, fr *frame, instr ssa.Instruction) {}
-func (t *threadState) spawn(r *Run, fr *frame, fn value, args []value) {
-	panic(unsupported("threads not implemented"))
+type thread struct {
+	id     int
+	resume chan struct{}
+	done   bool
+	fn     value
+	// interpreter state that belongs to the thread
+	cur   *frame
+	depth int
 }
-func (t *threadState) yield(r *Run, fr *frame)                          {}
-func (t *threadState) wait(r *Run, fr *frame)                           {}
-func (t *threadState) lockEvent(r *Run, fr *frame, m value, lock bool)  {}
+
+type threadState struct {
+	threads  []*thread
+	cur      *thread
+	switches int
+	quit     chan struct{}
+	panicVal any
+	held     map[*value]int // mutex -> thread id
+	points   int
+	interp   *interpreter
+}
+
+func newThreadState() *threadState {
+	ts := &threadState{quit: make(chan struct{}), held: map[*value]int{}}
+	main := &thread{id: 0, resume: make(chan struct{}, 1)}
+	ts.threads = []*thread{main}
+	ts.cur = main
+	return ts
+}
+
+func (ts *threadState) watched(r *Run, fn *ssa.Function) bool {
+	name := infoOf(fn).name
+	for _, w := range r.cfg.Watch {
+		if strings.HasPrefix(name, w) || strings.Contains(name, w) {
+			return true
+		}
+	}
+	return false
+}
+
+// spawn registers a new thread that will run fn() when first scheduled.
+func (ts *threadState) spawn(r *Run, fr *frame, fn value, args []value) {
+	t := &thread{id: len(ts.threads), resume: make(chan struct{}, 1), fn: fn}
+	ts.threads = append(ts.threads, t)
+	ts.interp = fr.i
+	go func() {
+		select {
+		case <-t.resume:
+		case <-ts.quit:
+			return
+		}
+		defer func() {
+			if p := recover(); p != nil {
+				ts.panicVal = p
+			}
+			t.done = true
+			// hand the baton on: another unfinished spawned thread, else the main thread
+			next := ts.threads[0]
+			for _, o := range ts.threads[1:] {
+				if !o.done {
+					next = o
+					break
+				}
+			}
+			if ts.panicVal != nil {
+				next = ts.threads[0]
+			}
+			ts.activate(next)
+		}()
+		call(ts.interp, nil, token.NoPos, t.fn, args)
+	}()
+}
+
+func (ts *threadState) activate(t *thread) {
+	ts.cur = t
+	ts.interp.cur, ts.interp.depth = t.cur, t.depth
+	t.resume <- struct{}{}
+}
+
+// switchTo parks the current thread and runs t until the baton comes back.
+func (ts *threadState) switchTo(t *thread) {
+	me := ts.cur
+	me.cur, me.depth = ts.interp.cur, ts.interp.depth
+	ts.activate(t)
+	select {
+	case <-me.resume:
+	case <-ts.quit:
+		runtime.Goexit()
+	}
+	if ts.panicVal != nil && me.id == 0 {
+		p := ts.panicVal
+		ts.panicVal = nil
+		panic(p)
+	}
+}
+
+func (ts *threadState) runnableOther() *thread {
+	for _, o := range ts.threads[1:] {
+		if !o.done && o != ts.cur {
+			return o
+		}
+	}
+	return nil
+}
+
+// maybeSwitch is called before every instruction.
+func (ts *threadState) maybeSwitch(r *Run, fr *frame, instr ssa.Instruction) {
+	if ts.cur.id == 0 || ts.interp == nil {
+		return // the main thread only runs while the others are parked or finished
+	}
+	switch in := instr.(type) {
+	case *ssa.Call, *ssa.Store, *ssa.MapUpdate, *ssa.Lookup:
+	case *ssa.UnOp:
+		if in.Op != token.MUL {
+			return
+		}
+	default:
+		return
+	}
+	if !ts.watched(r, fr.fn) {
+		return
+	}
+	if ts.switches >= r.cfg.MaxSwitches {
+		return
+	}
+	o := ts.runnableOther()
+	if o == nil {
+		return
+	}
+	ts.points++
+	if r.freeChoice() {
+		ts.switches++
+		r.tags = append(r.tags, fmt.Sprintf("switch@%s:%s", infoOf(fr.fn).name, fr.pos(instr)))
+		ts.switchTo(o)
+	}
+}
+
+func (ts *threadState) yield(r *Run, fr *frame) {}
+
+// wait runs the spawned threads to completion (called by the main thread).
+func (ts *threadState) wait(r *Run, fr *frame) {
+	if ts.interp == nil {
+		return
+	}
+	for {
+		var next *thread
+		for _, o := range ts.threads[1:] {
+			if !o.done {
+				next = o
+				break
+			}
+		}
+		if next == nil {
+			break
+		}
+		ts.switchTo(next)
+	}
+	if ts.panicVal != nil {
+		p := ts.panicVal
+		ts.panicVal = nil
+		panic(p)
+	}
+}
+
+// stop releases every parked goroutine at the end of a path.
+func (ts *threadState) stop() {
+	close(ts.quit)
+}
+
+func (ts *threadState) lockEvent(r *Run, fr *frame, m value, lock bool) {
+	p, ok := m.(*value)
+	if !ok || p == nil {
+		return
+	}
+	if lock {
+		for {
+			holder, held := ts.held[p]
+			if !held || holder == ts.cur.id {
+				break
+			}
+			// blocked: run the holder (a forced switch, not counted against the bound)
+			var h *thread
+			for _, o := range ts.threads {
+				if o.id == holder && !o.done {
+					h = o
+				}
+			}
+			if h == nil || ts.interp == nil {
+				panic(pathEnd{kind: "ASSUME", msg: "deadlock on a mutex"})
+			}
+			ts.switchTo(h)
+		}
+		ts.held[p] = ts.cur.id
+	} else {
+		delete(ts.held, p)
+	}
+}
+
+// freeChoice is a path decision that is always feasible both ways (no solver call).
+func (r *Run) freeChoice() bool {
+	if len(r.trace) < len(r.prefix) {
+		d := r.prefix[len(r.trace)]
+		r.trace = append(r.trace, d)
+		return d == 1
+	}
+	np := append(append([]int64{}, r.trace...), 1)
+	r.forks = append(r.forks, WorkItem{prefix: np, model: r.model})
+	r.trace = append(r.trace, 0)
+	return false
+}
